@@ -125,6 +125,14 @@ theorem table_unit_tags :
       (lookupFun (lvl x "GPTH")).bind unitOf == some "gas_surface_volume") = true :=
   unit_tags
 
+/-- Deck units of totals: the unit tag of every (atom-free) accumulating W/G/F key is the time
+integral of the unit tag of its rate twin. -/
+theorem table_totals_units_integrate :
+    Gen.funsK.all (fun p =>
+      !(isWGFK p.1 && stateIsTotalK p.1 && noAtom p.2) || unitIntegrates lookupK p.1 p.2 ||
+        memK totalExceptionsK p.1) = true :=
+  totals_units_integrate
+
 /-! ## `rate<phase,injection>` -/
 
 /-- `rate_sem`: for any number of wells, `⟦rate p inj⟧ = ± Σ_w keep_inj (q_w(p) · efac(w))`
@@ -148,6 +156,13 @@ theorem shut_wells_contribute_nothing (p : Rt) (inj : Bool) (c : Ctx K) :
 theorem all_shut_zero (p : Rt) (inj : Bool) (c : Ctx K) (h : ∀ w ∈ c.wells, flowing w = false) :
     evalRate p inj c = 0 :=
   evalRate_all_shut p inj c h
+
+/-- The order in which the wells are visited (`sort_wells_by_insert_index`) does not matter over
+a field: any permutation of the well list gives the same rate. -/
+theorem well_order_irrelevant (p : Rt) (inj : Bool) (c : Ctx K) (ws : List (WellIn K))
+    (h : ws.Perm c.wells) :
+    evalRate p inj { c with wells := ws } = evalRate p inj c :=
+  evalRate_perm p inj c ws h
 
 /-- Injection / production split by sign: injection rate − production rate = `Σ efac · q`. -/
 theorem injection_production_split (p : Rt) (c : Ctx K) (he : ∀ w ∈ c.wells, 0 ≤ c.efac w.name) :
@@ -311,6 +326,21 @@ theorem non_total_is_last_value (key : String) (hnt : stateIsTotal key = false) 
     accumulate key f e (cs ++ [c]) t0 = (evalE c e).map (fun v => f * v) :=
   non_total_last key hnt f e cs c t0 hr
 
+/-! ## calendar
+
+Full statement wanted: `daysFromCivil (civilFromDays z) = z ∧ 1 ≤ month ≤ 12 ∧ 1 ≤ day ≤ 31` for
+every day number `z` (DAY / MONTH / YEAR are the civil date of START + elapsed).  Proved: the
+400-year periodicity, which reduces that statement to the 146 097 days of one era; the remaining
+finite check is too expensive for the kernel here (≈17 ms per day) and `omega` does not close the
+nested floor divisions, so the date function itself is tied to the real `gmtime` by the
+`sumfuns.time` correspondence op and by property mode only. -/
+
+/-- `civilFromDays` is periodic with the Gregorian era: 146 097 days later is the same day and
+month 400 years later. -/
+theorem calendar_era_periodic_partial (z : Int) : civilFromDays (z + 146097) =
+    ((civilFromDays z).1 + 400, (civilFromDays z).2.1, (civilFromDays z).2.2) :=
+  civilFromDays_era_shift z
+
 /-! ## non-vacuity: concrete instances over ℚ -/
 
 section Examples
@@ -361,6 +391,10 @@ example : lookupFun "WOPT" = some (.mul (.rate .oil false) .duration) ∧ stateI
   · unfold lookupFun; rw [lookupK_eq]; decide +kernel
   · decide +kernel
   · decide +kernel
+
+example : civilFromDays 0 = (1970, 1, 1) ∧ civilFromDays 19782 = (2024, 2, 29) ∧
+    daysFromCivil 2024 2 29 = 19782 ∧ simDate 1577836800 (86400 * 1000000000 * 60) = (2020, 3, 1) := by
+  decide +kernel
 
 end Examples
 
